@@ -207,4 +207,33 @@ SPEC = {
                 "params": {"duration": R, "step_time": R, "inclusive": B}},
         },
     },
+    "Distributions": {
+        "sites": {
+            nm: {"file": "inferno/stats/distributions.py", "cls": cls, "method": meth, "target": "body",
+                 "rename": ren, "params": par}
+            for nm, cls, meth, ren, par in (
+                ("Poisson_logpmf", "Poisson", "logpmf", {"torch.special.xlogy": "xlogy", "torch.lgamma": "lgamma"},
+                 {"support": R, "rate": R, "lgamma": "fn"}),
+                ("Poisson_pmf", "Poisson", "pmf", {"Poisson.logpmf": "Poisson_logpmf"}, {"support": R, "rate": R, "lgamma": "fn"}),
+                ("Poisson_cdf", "Poisson", "cdf", {"torch.special.gammaincc": "gammaincc"}, {"support": R, "rate": R, "gammaincc": "fn2"}),
+                ("Poisson_logcdf", "Poisson", "logcdf", {"cls.cdf": "Poisson_cdf"}, {"support": R, "rate": R, "gammaincc": "fn2"}),
+                ("Poisson_mean", "Poisson", "mean", {}, {"rate": R}),
+                ("Poisson_variance", "Poisson", "variance", {}, {"rate": R}),
+                ("Normal_params_mv", "Normal", "params_mv", {}, {"mean": R, "variance": R}),
+                ("Normal_pdf", "Normal", "pdf", {}, {"support": R, "loc": R, "scale": R}),
+                ("Normal_logpdf", "Normal", "logpdf", {"cls.pdf": "Normal_pdf"}, {"support": R, "loc": R, "scale": R}),
+                ("Normal_cdf", "Normal", "cdf", {"torch.special.erf": "erf"}, {"support": R, "loc": R, "scale": R, "erf": "fn"}),
+                ("Normal_logcdf", "Normal", "logcdf", {"cls.cdf": "Normal_cdf"}, {"support": R, "loc": R, "scale": R, "erf": "fn"}),
+                ("Normal_mean", "Normal", "mean", {}, {"loc": R}),
+                ("Normal_variance", "Normal", "variance", {}, {"scale": R}),
+                ("LogNormal_params_mv", "LogNormal", "params_mv", {}, {"mean": R, "variance": R}),
+                ("LogNormal_logpdf", "LogNormal", "logpdf", {}, {"support": R, "loc": R, "scale": R}),
+                ("LogNormal_pdf", "LogNormal", "pdf", {"cls.logpdf": "LogNormal_logpdf"}, {"support": R, "loc": R, "scale": R}),
+                ("LogNormal_cdf", "LogNormal", "cdf", {"Normal.cdf": "Normal_cdf"}, {"support": R, "loc": R, "scale": R, "erf": "fn"}),
+                ("LogNormal_logcdf", "LogNormal", "logcdf", {"cls.cdf": "LogNormal_cdf"}, {"support": R, "loc": R, "scale": R, "erf": "fn"}),
+                ("LogNormal_mean", "LogNormal", "mean", {}, {"loc": R, "scale": R}),
+                ("LogNormal_variance", "LogNormal", "variance", {"torch.special.expm1": "expm1"}, {"loc": R, "scale": R, "expm1": "fn"}),
+            )
+        },
+    },
 }
